@@ -42,11 +42,14 @@ func genOp(t *rapid.T) Op {
 	case "error-reserved":
 		op = Op{Op: "error", Name: rapid.SampledFrom([]string{"org.varlink.service.InvalidParameter", "org.varlink.service.Custom"}).Draw(t, "ename"), P: genParamsObj(t)}
 	case "ifnotfound", "methodnotfound", "notimpl", "invalidparam":
-		op = Op{Op: k, S: rapid.SampledFrom([]string{"x", "", "a.b", "é\"\x00"}).Draw(t, "s")}
+		op = Op{Op: k, S: rapid.SampledFrom([]string{"x", "", "a.b", "é\"\x00", "\x01\a\v\x1b\x7f", "\U000E0001\U0010FFFD", "<&>\u2028", "\\u003c%q"}).Draw(t, "s")}
 	case "fail":
 		op = Op{Op: "fail", S: rapid.SampledFrom(failKinds).Draw(t, "failkind")}
 	default:
 		op = Op{Op: k}
+	}
+	if (op.Op == "reply" || (op.Op == "error" && ErrorNameClass(op.Name) == "accept")) && rapid.IntRange(0, 11).Draw(t, "unencodable") == 0 {
+		op.Go, op.P = "nan", nil // parameters that cannot be encoded: refused, nothing written
 	}
 	if op.Op != "fail" && op.Op != "yield" && rapid.IntRange(0, 5).Draw(t, "ret") == 0 {
 		op.Ret = true
